@@ -24,6 +24,8 @@ SPEC = {
 }
 SPEC['explanation'] += ' T8r (string class): a raw byte position from buffer.tell() saves nothing, because the decoder on top of the byte stream reads ahead; the position is restored by a code-point seek to the saved _tell.'
 SPEC['decided'] += ['decoder read-ahead: no raw-position restore in the string class']
+SPEC['explanation'] += ' T9.tellafter: SpooledStringIO.write advances _tell only after the data is in the buffer.'
+SPEC['decided'] += ['position advanced after the write']
 MANIFEST = {
     'technique': 'save/disturb/restore typestate over all CFG paths per position component; unit (code point vs byte) qualifier check; ordering and reset-completeness checks',
     'text': ('Decides necessary structural conditions of C18: read-only queries leave both position components where they '
